@@ -34,6 +34,9 @@ def abs_source(src, offset=0):
     n = src['n']
     d = src.get('kind', 'list') == 'dict'
     # kind 'user': a user-written dataset (length, integer index, plain iteration)
+    if src.get('kind') == 'user_nocopy':
+        # ... that cannot be copied: nothing that freezes / copies the pipeline works
+        return Abs([(offset + i,) for i in range(n)], n, True, False, True, False, False)
     return Abs([(offset + i,) for i in range(n)], n, True, True, True, d, d)
 
 
